@@ -21,7 +21,7 @@ for c in "$@"; do
   echo "  $c rc=$rc $sigs"
   res="$res{\"check\":\"$c\",\"rc\":$rc,\"signatures\":\"$sigs\"},"
 done
-cp "$patch" "$out/patch.diff"; cp "$demo" "$out/demo.py"
+[ "$patch" -ef "$out/patch.diff" ] || cp "$patch" "$out/patch.diff"; [ "$demo" -ef "$out/demo.py" ] || cp "$demo" "$out/demo.py"
 cat > "$out/eval.json" <<J
 {"seed":"$id","property":"$prop","suite_with_change":"$suite","demo_without_change_rc":$demo_clean,"demo_with_change_rc":$demo_mut,"checks":[${res%,}]}
 J
